@@ -112,18 +112,24 @@ CheckFast(B, rp) ==
   ELSE IF Inc(rp.rnd) = B.rnd THEN (IF rp.idx > B.imax THEN 1 ELSE IF rp.idx > B.idx THEN 1 ELSE 0)
   ELSE 0
 
-(* r_buf_rpos_check: [ok, rp (possibly modified), drop (-1 = *drop_size_ret not written)] *)
+(* r_buf_rpos_check: [ok, rp (possibly modified), drop (-1 = *drop_size_ret not written), path (ghost:
+   which branch decided)] *)
 Check(B, rp0) ==
   LET p == IF B.iov[rp0.idx].l <= rp0.off THEN [rp0 EXCEPT !.off = 0] ELSE rp0 IN
   IF p.rnd = B.rnd THEN
-       IF p.idx <= B.idx + 1 THEN [ok |-> 1, rp |-> p, drop |-> -1]
-       ELSE [ok |-> 0, rp |-> [idx |-> B.idx + 1, off |-> 0, rnd |-> p.rnd], drop |-> 0]
+       IF p.idx <= B.idx + 1 THEN [ok |-> 1, rp |-> p, drop |-> -1, path |-> "same-round"]
+       ELSE [ok |-> 0, rp |-> [idx |-> B.idx + 1, off |-> 0, rnd |-> p.rnd], drop |-> 0,
+             path |-> "same-round-ahead"]
   ELSE IF Inc(p.rnd) = B.rnd THEN
-       IF p.idx > B.imax THEN [ok |-> 1, rp |-> [idx |-> 0, off |-> 0, rnd |-> B.rnd], drop |-> -1]
-       ELSE IF p.idx > B.idx THEN [ok |-> 1, rp |-> p, drop |-> -1]
-       ELSE [ok |-> 0, rp |-> p, drop |-> Size + SumLen(B.iov, p.idx, B.idx)]
-  ELSE [ok |-> 0, rp |-> [idx |-> B.idx + 1, off |-> 0, rnd |-> B.rnd],
-        drop |-> IF Inc(p.rnd) >= B.rnd THEN 0 ELSE Size * ((B.rnd - p.rnd + RoundMod) % RoundMod)]
+       IF p.idx > B.imax THEN [ok |-> 1, rp |-> [idx |-> 0, off |-> 0, rnd |-> B.rnd], drop |-> -1,
+                               path |-> "prev-round-past-end"]
+       ELSE IF p.idx > B.idx THEN [ok |-> 1, rp |-> p, drop |-> -1, path |-> "prev-round"]
+       ELSE [ok |-> 0, rp |-> p, drop |-> Size + SumLen(B.iov, p.idx, B.idx), path |-> "prev-round-slow"]
+  ELSE IF Inc(p.rnd) >= B.rnd
+       THEN [ok |-> 0, rp |-> [idx |-> B.idx + 1, off |-> 0, rnd |-> B.rnd], drop |-> 0,
+             path |-> "round-compares-ahead"]
+       ELSE [ok |-> 0, rp |-> [idx |-> B.idx + 1, off |-> 0, rnd |-> B.rnd],
+             drop |-> Size * ((B.rnd - p.rnd + RoundMod) % RoundMod), path |-> "rounds-behind"]
 
 (* r_buf_data_avail_size *)
 Avail(B, rp0) ==
@@ -293,7 +299,11 @@ Unread(r) == IF next[r] = Pending THEN 0 ELSE Cardinality({c \in 0..(Size - 1) :
 (* ghost effect of the r_buf_rpos_check verdict inside avail/get:
    told = the call returned nothing and reported drop > 0  ->  the reader knows it lost data *)
 Told(c) == c.drop > 0
-DropViol(r, drop) == IF drop > 0 /\ drop < Unread(r) THEN {"drop:less-than-skipped"} ELSE {}
+DropViol(r, c) == IF c.ok = 1 THEN {}
+                  ELSE IF c.drop > 0 /\ c.drop < Unread(r) THEN {"drop:less-than-skipped:" \o c.path}
+                  ELSE IF c.drop = 0 /\ Unread(r) > 0 /\ c.rp # rpos[r]
+                       THEN {"drop:silent-resync:" \o c.path}
+                  ELSE {}
 
 DoAvail(r) ==
   /\ rpos[r] # NoPos
@@ -306,10 +316,10 @@ DoAvail(r) ==
         /\ ev' = Ev([op |-> "avail", r |-> r, ret |-> a.ret, drop |-> a.drop, full |-> full, cf |-> cf, rp |-> a.rp])
         /\ viol' = (IF a.ret = Garbage THEN {"avail:null-base"}
                     ELSE IF a.ret # full THEN {"avail:differs-from-full-read"} ELSE {})
-                   \cup DropViol(r, a.drop)
+                   \cup DropViol(r, ck)
                    \cup (IF cf # ck.ok THEN {"fast:differs-from-check"} ELSE {})
                    \cup (IF a.rp.idx \notin 0..(IovN - 1) THEN {"table:rpos"} ELSE {})
-        /\ IF a.drop > 0
+        /\ IF a.drop > 0 \/ DropViol(r, ck) # {}
            THEN /\ next' = [next EXCEPT ![r] = Pending]
                 /\ low' = [low EXCEPT ![r] = Max(@, next[r])]
                 /\ lastret' = [lastret EXCEPT ![r] = 0]
@@ -344,9 +354,9 @@ DoDataGet(r, dsz, cnt) ==
         /\ ev' = Ev([op |-> "dget", r |-> r, dsz |-> dsz, cnt |-> cnt, regs |-> g.regs, drop |-> g.drop,
                   dsr |-> g.dsr, rp |-> g.rp,
                   bytes |-> IF inring THEN [k \in 1..n |-> ByteOf(D[k])] ELSE << >>])
-        /\ viol' = bad \cup DropViol(r, g.drop)
+        /\ viol' = bad \cup DropViol(r, Check(rb, rpos[r]))
                    \cup (IF g.rp.idx \notin 0..(IovN - 1) THEN {"table:rpos"} ELSE {})
-        /\ IF g.drop > 0
+        /\ IF g.drop > 0 \/ DropViol(r, Check(rb, rpos[r])) # {}
            THEN /\ next' = [next EXCEPT ![r] = Pending]
                 /\ low' = [low EXCEPT ![r] = Max(@, next[r])]
                 /\ lastret' = [lastret EXCEPT ![r] = 0]
